@@ -97,7 +97,12 @@ def _do_check(mod, pid, tier, seed):
     # G4: a violation is reported only if it reproduces from its replay record
     os.makedirs(evidence.REPLAY_DIR, exist_ok=True)
     reported, unconfirmed = [], []
-    for v in unknown[:MAX_REPORTED]:
+    tried = 0
+    for v in unknown:
+        # confirm up to MAX_REPORTED violations; keep looking (up to 150 candidates) while none has been confirmed
+        if len(reported) >= MAX_REPORTED or tried >= 150 or (tried >= MAX_REPORTED and reported):
+            break
+        tried += 1
         path = _replay_path(pid, v["key"])
         # candidates: the case itself, then alternatives that carry more context (e.g. the history that ran
         # just before it in the same process, for code under test that keeps module-level state)
